@@ -17,6 +17,7 @@ Ok(e) == /\ e.ret = ""
          /\ (e.in_len > 0 => e.has_file)
          /\ e.file_len = e.in_len /\ (e.has_file => e.file_sha = e.in_sha)
          /\ (e.small => e.out = e.in /\ (e.has_file => e.file = e.in))
+         /\ (e.live => e.live_complete)     \* not delayed indefinitely: a burst is passed through while stdin is still open
 
 Init == l = 1 /\ bad = <<>>
 Next == /\ l <= Len(Trace)
